@@ -20,7 +20,8 @@
    Whether a value can be encoded at all is not a premise: an unencodable request or response makes
    the operation fail and change nothing, in the model as in the specification. *)
 From Coercion.Base Require Import Plan.
-From Coercion.Store Require Import Tree Rows Spec SqliteModel SqliteRep SqliteRefine SqliteTheorems.
+From Coercion.Store Require Import Tree Rows Spec SqliteModel SqliteRep SqliteRefine SqliteTheorems
+     CosmosModel CosmosRep CosmosTheorems.
 
 Theorem c13_roundtrip_sqlite :
   forall (enc_req : blob -> option code) (dec_req : tok -> code -> option blob)
@@ -62,3 +63,25 @@ Theorem c13_spec_read_deleted : forall id s, Spec.read id (fst (Spec.delete id s
 Proof. exact spec_read_deleted. Qed.
 Print Assumptions c13_spec_read_created.
 Print Assumptions c13_spec_read_deleted.
+
+(* ---- cosmosdb ----
+   The same statement for the model of the cosmosdb vault (CosmosModel.v: items per partition,
+   planToItems, docTo*, patch-by-path updates, the plan batch and the search batch as two steps).
+   Its domain (cops_ok, CosmosRep.v): created plans as for sqlite plus non-nil ids (objsToIDs rejects
+   nil ids), no restriction on instants; every Update* addresses an object of a stored plan by that
+   plan's id - the partition key - and its own id, and UpdatePlan carries the stored SubmitTime
+   (cosmosdb patches /submitTime). The semantics of the Cosmos service is trusted as stated in
+   CosmosModel.v (atomic batches per partition, ORDER BY honoured, exact JSON). *)
+Theorem c13_roundtrip_cosmos :
+  forall (enc_req : blob -> option code) (dec_req : tok -> code -> option blob)
+         (enc_att : attempt -> option code) (dec_att : tok -> code -> option attempt)
+         (req_ok : tok -> blob -> bool) (att_ok : tok -> attempt -> bool),
+    (forall t b c, req_ok t b = true -> enc_req b = Some c -> dec_req t c = Some b) ->
+    (forall t a c, att_ok t a = true -> enc_att a = Some c -> dec_att t c = Some a) ->
+    forall (ops : list op) (id : uid),
+      cops_ok enc_req enc_att req_ok att_ok [] ops ->
+      CosmosModel.read dec_req dec_att id (CosmosModel.run enc_req dec_req enc_att dec_att ops cempty)
+      = Spec.read id (Spec.run enc_req enc_att ops [])
+      /\ CosmosModel.results enc_req dec_req enc_att dec_att ops cempty = Spec.results enc_req enc_att ops [].
+Proof. exact c13_roundtrip_cosmos_lemma. Qed.
+Print Assumptions c13_roundtrip_cosmos.
